@@ -47,6 +47,8 @@ def configure_repo():
     return os.path.join(cfg, "config")
 
 
+DEFAULT_VARIANTS = [("clang-O2", {"cxx": "clang++"}), ("gcc-O0", {"opt": "-O0"})]
+
 LIB_CPP = ["half.cpp", "ImathColorAlgo.cpp", "ImathFun.cpp", "ImathMatrixAlgo.cpp", "ImathRandom.cpp"]
 
 
@@ -56,7 +58,7 @@ def build_cpp(prop, spec, cfg_inc, variant=""):
     shutil.rmtree(bdir, ignore_errors=True)
     os.makedirs(bdir)
     cxx = spec.get("cxx", "g++")
-    flags = ["-O2", "-std=c++14", "-g0", "-pthread",
+    flags = [spec.get("opt", "-O2"), "-std=c++14", "-g0", "-pthread",
              "-I" + os.path.join(REPO, "src/Imath"), "-I" + cfg_inc, "-I" + os.path.join(VERIF, "engine"),
              "-DIMATH_VERIF_HARNESS"] + spec.get("flags", [])
     srcs = [os.path.join(VERIF, "harness", s) for s in spec["sources"]]
@@ -92,6 +94,7 @@ def load_known():
 
 
 def match_known(known, prop, site, inputs):
+    site = re.sub(r"^\[[^\]]+\] ", "", site)   # "[clang-O2] site" -> "site"
     for k in known.get("open", []):
         if k["property"] != prop or k["site"] != site:
             continue
@@ -199,6 +202,29 @@ def run_cpp(prop, tier, seed, replay=None):
         log("HARNESS-ERROR: %s exited with %d" % (exe, p.returncode))
         return 2
     rep = json.load(open(out))
+    # thorough tier: repeat the quick alphabets with other compilers / optimisation levels (DESIGN 0.1): the same
+    # harness and oracles, built by clang++ -O2 and by g++ -O0; their violation sites are merged with a prefix.
+    if tier == "thorough" and not replay:
+        for vname, vspec in spec.get("cxx_variants", DEFAULT_VARIANTS):
+            sp2 = dict(spec); sp2.update(vspec)
+            exe2 = build_cpp(prop, sp2, cfg_inc, variant="-" + vname)
+            out2 = os.path.join(os.path.dirname(exe2), "report.json")
+            p2 = subprocess.run([exe2, "--tier", "quick", "--seed", str(seed), "--out", out2, "--deadline", str(spec.get("deadline", {}).get("quick", 240))], cwd=VERIF)
+            if p2.returncode != 0:
+                log("HARNESS-ERROR: variant %s exited with %d" % (vname, p2.returncode))
+                return 2
+            r2 = json.load(open(out2))
+            pre = "[%s] " % vname
+            for k, v in r2.get("violation_counts", {}).items():
+                rep["violation_counts"][pre + k] = v
+            for v in r2.get("violations", []):
+                v = dict(v); v["site"] = pre + v["site"]; rep["violations"].append(v)
+            rep["stages_completed"].append("%s: quick alphabets rebuilt with %s — %d stages, %d violations [%.1fs]" %
+                                           (vname, vspec, len(r2.get("stages_completed", [])), len(r2.get("violation_counts", {})), r2.get("wall_s", 0)))
+            for k in ("states", "transitions", "evaluations"):
+                rep["counters"][k] = rep["counters"].get(k, 0) + r2.get("counters", {}).get(k, 0)
+            rep["exhaustive"] = rep.get("exhaustive", False) and r2.get("exhaustive", False)
+            rep["wall_s"] = rep.get("wall_s", 0) + r2.get("wall_s", 0)
     if replay:
         want = set(c["input"] for c in rj["cases"])
         got = set(v["input"] for v in rep.get("violations", []) if v["site"] == rj["site"])
